@@ -217,6 +217,28 @@ func xrSide(s *simkube.Store, c config) {
 	})
 }
 
+// xrStatusMoves is the XR controller reporting different values for status
+// fields the claim already shows (scalars, a list, nested fields).
+func xrStatusMoves(s *simkube.Store) {
+	xr := theXR(s)
+	if xr == nil {
+		return
+	}
+	st, _ := xr.Object["status"].(map[string]any)
+	if st == nil {
+		return
+	}
+	st["out"] = "o2"
+	st["count"] = int64(7)
+	st["list"] = []any{"only"}
+	if n, ok := st["nestedOut"].(map[string]any); ok {
+		n["connectionDetails"] = map[string]any{"lastPublishedTime": "user-value-2"}
+	}
+	if err := s.Client("xr").Status().Update(ctx, xr); err != nil {
+		panic(explore.HarnessError{Msg: "XR side second status update: " + err.Error()})
+	}
+}
+
 // counted holds the (case, phase) pairs already reported to rep.Eval.
 var counted = map[string]bool{}
 
@@ -336,6 +358,8 @@ func run(r *explore.Run, rep *report.R, sc string, c config) {
 		editClaim(s, c)
 		c2 := w.sync("resync", later, laterSSA, c0)
 		if !c.noSettle {
+			// The XR's status moves on: the claim has to follow.
+			xrStatusMoves(s)
 			w.sync("settle", later, laterSSA, c2)
 		}
 	}
